@@ -38,17 +38,15 @@ PATTERNS = ["*.qchemlog"]
     "qchemlog",
     [
         "atcoords",
-        "atmasses",
         "atnums",
         "energy",
-        "g_rot",
         "mo",
         "lot",
         "obasis_name",
         "run_type",
         "extra",
     ],
-    ["athessian"],
+    ["athessian", "atmasses", "g_rot"],
 )
 def load_one(lit: LineIterator) -> dict:
     """Do not edit this docstring. It will be overwritten."""
